@@ -88,6 +88,64 @@ INFO = {t[0]: t for t in TARGETS}
 BY_NAME = {(t[2], t[3]): t[0] for t in TARGETS}
 
 
+def emit_paranoia(tree):
+    """`paranoia_mode(data)`: a dict comprehension over `data.items()` with a membership filter on the key and a value
+    built from nested dict literals, subscript chains `v["a"]["b"]` and one list comprehension `[g[:-1] for g in v["k"]]`"""
+    fn = next((n for n in tree.body if isinstance(n, ast.FunctionDef) and n.name == "paranoia_mode"), None)
+    if fn is None:
+        raise Unsupported("paranoia_mode not found")
+    if [a.arg for a in fn.args.args] != ["data"]:
+        raise Unsupported("parameters of paranoia_mode changed")
+    body = [b for b in fn.body if not (isinstance(b, ast.Expr) and isinstance(b.value, ast.Constant))]
+    if len(body) != 1 or not isinstance(body[0], ast.Return) or not isinstance(body[0].value, ast.DictComp):
+        raise Unsupported("paranoia_mode is not a single dict comprehension")
+    dc = body[0].value
+    g = dc.generators[0]
+    if len(dc.generators) != 1 or ast.unparse(g.iter) != "data.items()" or not isinstance(g.target, ast.Tuple) or \
+            [ast.unparse(x) for x in g.target.elts] != ["k", "v"] or ast.unparse(dc.key) != "k" or len(g.ifs) != 1:
+        raise Unsupported("comprehension header of paranoia_mode")
+    cond = g.ifs[0]
+    if not (isinstance(cond, ast.Compare) and ast.unparse(cond.left) == "k" and len(cond.ops) == 1 and
+            isinstance(cond.ops[0], ast.In) and isinstance(cond.comparators[0], (ast.List, ast.Tuple)) and
+            all(isinstance(x, ast.Constant) and isinstance(x.value, str) for x in cond.comparators[0].elts)):
+        raise Unsupported("filter of paranoia_mode")
+
+    def lit(sv):
+        return "([" + ", ".join("Char.ofNat %d" % ord(c) for c in sv) + "] : List Char)"
+    keys = "[" + ", ".join(lit(x.value) for x in cond.comparators[0].elts) + "]"
+
+    def val(e, names):
+        if isinstance(e, ast.Dict):
+            items = []
+            for k_, v_ in zip(e.keys, e.values):
+                if not (isinstance(k_, ast.Constant) and isinstance(k_.value, str)):
+                    raise Unsupported("dict key in paranoia_mode")
+                items.append("(%s, %s)" % (lit(k_.value), val(v_, names)))
+            return "(Wallet.Json.obj [%s])" % ", ".join(items)
+        if isinstance(e, ast.Subscript) and isinstance(e.slice, ast.Constant) and isinstance(e.slice.value, str):
+            return "(← Py.jsonGet %s %s)" % (val(e.value, names), lit(e.slice.value))
+        if isinstance(e, ast.Name) and e.id in names:
+            return e.id
+        if isinstance(e, ast.ListComp) and len(e.generators) == 1 and not e.generators[0].ifs and \
+                isinstance(e.generators[0].target, ast.Name):
+            x = e.generators[0].target.id
+            el = e.elt
+            if not (isinstance(el, ast.Subscript) and isinstance(el.value, ast.Name) and el.value.id == x and
+                    isinstance(el.slice, ast.Slice) and el.slice.lower is None and el.slice.step is None and
+                    ast.unparse(el.slice.upper) == "-1"):
+                raise Unsupported("list comprehension element in paranoia_mode")
+            return "(Wallet.Json.arr (← (← Py.jsonElems %s).mapM (fun %s => Py.jsonDropLast %s)))" % (
+                val(e.generators[0].iter, names), x, x)
+        raise Unsupported("value expression in paranoia_mode: " + ast.unparse(e)[:50])
+    body_v = val(dc.value, {"k", "v"})
+    return ("def paranoia_mode (data : Wallet.Json) : Option Wallet.Json := do\n"
+            "  let items ← Py.jsonItems data\n"
+            "  let kept := items.filter (fun (kv : List Char × Wallet.Json) => decide (kv.1 ∈ %s))\n"
+            "  let out ← kept.mapM (fun (kv : List Char × Wallet.Json) => (do\n"
+            "    let k := kv.1\n    let v := kv.2\n    pure (k, %s) : Option (List Char × Wallet.Json)))\n"
+            "  return (Wallet.Json.obj out)\n" % (keys, body_v))
+
+
 class PaperFn(WalletFn):
     def __init__(self, node, lean_name, cls_name, ctx, args, ret, opts, sigs):
         WalletFn.__init__(self, node, lean_name, cls_name, "wallet" if ctx == "wallet" else ctx, args, ret, opts, sigs)
@@ -385,8 +443,18 @@ def translate_all():
                    % (cname, meth, e, lean, "{Pt : Type} " if opts.get("takesP") else "", " ".join(head), ret))
             status[lean] = "FAILED: %s" % e
         chunks.append("/-- translated from `%s` : `%s.%s` -/\n%s" % (f, cname, meth, txt))
+    try:
+        if fatal:
+            raise Unsupported(fatal)
+        ptxt = emit_paranoia(ast.parse(open(os.path.join(REPO, "btc_hd_wallet", "__main__.py"), encoding="utf-8").read()))
+        status["paranoia_mode"] = "ok"
+    except (Unsupported, SyntaxError, OSError) as e:
+        ptxt = ("-- TRANSLATION FAILED for paranoia_mode: %s\n"
+                "def paranoia_mode (data : Wallet.Json) : Option Wallet.Json := Code.translationFailed _\n" % e)
+        status["paranoia_mode"] = "FAILED: %s" % e
+    chunks.append("/-- translated from `__main__.py` : `paranoia_mode` -/\n" + ptxt)
     hdr = ("-- GENERATED by harness/translate_obj3.py from /repo's working tree. Do not edit.\n"
-           "import BtcHd.Generated.CodeObj2\n\n"
+           "import BtcHd.Generated.CodeObj2\nimport BtcHd.Model.PyJson\n\n"
            "set_option linter.unusedVariables false\n\n"
            "namespace BtcHd.CodeObj3\nopen BtcHd BtcHd.Code BtcHd.CodeObj BtcHd.CodeObj2\n\n"
            "/-- `self.watch_only` of the wallet (translated in CodeObj2) -/\n"
